@@ -1,6 +1,6 @@
-(* C08 — proofs about the FLV/AMF0 model (Model/C08Flv.v, Model/C08Amf0.v) *)
+(* C08 — proofs about the FLV model (Model/C08Flv.v) *)
 From Coq Require Import ZArith List Bool Lia ZifyBool.
-From V Require Import Bytes BytesLemmas C08Amf0 C08Flv.
+From V Require Import Bytes BytesLemmas C08Amf0 C08Flv C08Amf0Proofs.
 Import ListNotations.
 Open Scope Z_scope.
 Ltac Zify.zify_post_hook ::= Z.div_mod_to_equations.
@@ -12,3 +12,792 @@ Definition d17_tags : list tag :=
 Lemma flv_ts_wrap_refuted_lemma :
   exists l, option_map (fun r => map p_ts (snd r)) (parse_flv (flv_write_old 5 l)) = Some [0; 4294967286].
 Proof. exists d17_tags. vm_compute. reflexivity. Qed.
+
+(* ---------------------------------------------------------------- the writer's bytes parse *)
+Definition tag_wf (t : tag) : bool :=
+  ((t_type t =? 8) || (t_type t =? 9) || (t_type t =? 18)) && (zlen (t_data t) <? TWO24).
+
+Lemma rd1_cons b r : c08_rd 1 (b :: r) = Some (b, r).
+Proof. unfold c08_rd. cbn. unfold be_decode. cbn. repeat f_equal. Qed.
+
+Lemma parse_tags_step t ts f rest :
+  tag_wf t = true -> 0 <= ts < TWO32 ->
+  parse_tags (S f) (tag_bytes t ts ++ rest) =
+  match parse_tags f rest with
+  | Some l => Some (mkP (t_type t) ts (t_data t) :: l)
+  | None => None
+  end.
+Proof.
+  unfold tag_wf, TWO24, TWO32. intros W R. apply andb_true_iff in W as [Wt Wl].
+  pose proof (zlen_nonneg (t_data t)) as L0.
+  assert (Wl' : zlen (t_data t) < 16777216) by lia. clear Wl.
+  unfold tag_bytes, TWO24, u32, TWO32. rewrite <- !app_assoc. cbn [app parse_tags].
+  rewrite c08_rd_app by apply be24_len. rewrite be24_dec by lia.
+  rewrite c08_rd_app by apply be24_len. rewrite be24_dec by lia.
+  rewrite rd1_cons.
+  change (0 :: 0 :: 0 :: t_data t ++ c08_be32 ((11 + zlen (t_data t)) mod 4294967296) ++ rest)
+    with ([0; 0; 0] ++ t_data t ++ c08_be32 ((11 + zlen (t_data t)) mod 4294967296) ++ rest).
+  rewrite c08_rd_app by reflexivity. change (be_decode [0; 0; 0]) with 0.
+  rewrite c08_rdn_app' by lia.
+  rewrite c08_rd_app by apply be32_len. rewrite be32_dec by lia.
+  change (0 =? 0) with true. cbn [andb].
+  replace ((11 + zlen (t_data t)) mod 4294967296 =? 11 + zlen (t_data t) mod 16777216) with true by lia.
+  assert (T : t_type t mod 32 = t_type t) by lia. rewrite T. rewrite Wt. cbn [andb].
+  unfold TWO24. replace (ts / 16777216 mod 256 * 16777216 + ts mod 16777216) with ts by lia.
+  reflexivity.
+Qed.
+
+Lemma rebase_range st t : 0 <= snd (rebase st t) < TWO32.
+Proof.
+  unfold rebase, u32, TWO32. cbn [snd].
+  match goal with |- context [if ?c then _ else _] => destruct c end; lia.
+Qed.
+
+(* what the client parses: every tag with its rebased timestamp *)
+Fixpoint written (st : wstate) (l : list tag) : list ptag :=
+  match l with
+  | [] => []
+  | t :: r => let '(st', ts) := rebase st t in mkP (t_type t) ts (t_data t) :: written st' r
+  end.
+
+Lemma parse_write_tags l : forall st fuel,
+  (length l <= fuel)%nat -> forallb tag_wf l = true ->
+  parse_tags fuel (write_tags st l) = Some (written st l).
+Proof.
+  induction l as [|t l IH]; intros st fuel Hf W.
+  - destruct fuel; reflexivity.
+  - destruct fuel; [cbn in Hf; lia|]. cbn [forallb] in W. apply andb_true_iff in W as [Wt Wl].
+    cbn [write_tags written]. pose proof (rebase_range st t) as R.
+    destruct (rebase st t) as [st' ts]. cbn [snd] in R.
+    rewrite parse_tags_step by assumption. rewrite IH by (cbn in Hf; lia || assumption). reflexivity.
+Qed.
+
+Lemma write_tags_len l : forall st, (length l <= length (write_tags st l))%nat.
+Proof.
+  induction l as [|t l IH]; intros st; [cbn; lia|]. cbn [write_tags].
+  destruct (rebase st t) as [st' ts]. rewrite app_length. specialize (IH st').
+  unfold tag_bytes. rewrite app_length. cbn [length]. lia.
+Qed.
+
+Lemma parse_flv_write flags l :
+  (flags = 4 \/ flags = 5) -> forallb tag_wf l = true ->
+  parse_flv (flv_write flags l) = Some (flags, written w_init l).
+Proof.
+  intros Hfl W. unfold flv_write, parse_flv.
+  change 13 with (zlen (file_header flags)). rewrite c08_rdn_app.
+  rewrite parse_write_tags by (apply write_tags_len || assumption).
+  destruct Hfl; subst; reflexivity.
+Qed.
+
+(* ---------------------------------------------------------------- payloads parse back *)
+Lemma video_codec_id_cases c : video_codec_id c = 7 \/ video_codec_id c = 12.
+Proof. unfold video_codec_id. destruct (c_hevc c); auto. Qed.
+
+Lemma parse_video_data ft codec pkt cts body :
+  (ft = 1 \/ ft = 2) -> (codec = 7 \/ codec = 12) -> (pkt = 0 \/ pkt = 1) -> zlen body < TWO32 ->
+  parse_video (video_data ft codec pkt cts body) =
+  Some (mkPV ft codec pkt (si24 (cts mod TWO24)) body).
+Proof.
+  unfold TWO32. intros Hft Hc Hp Hl. pose proof (zlen_nonneg body).
+  unfold video_data, parse_video. cbn [app]. rewrite rd1_cons, rd1_cons.
+  rewrite c08_rd_app by apply be24_len. unfold TWO24. rewrite be24_dec by lia.
+  assert (B : (ft * 16 + codec) mod 256 mod 16 = codec /\ (ft * 16 + codec) mod 256 / 16 = ft) by lia.
+  destruct B as [B1 B2]. rewrite B1, B2.
+  replace ((codec =? 7) || (codec =? 12)) with true by lia.
+  destruct Hp; subst pkt.
+  - reflexivity.
+  - change (1 =? 0) with false. change (1 =? 1) with true. cbv iota.
+    rewrite c08_rd_app by apply be32_len. unfold u32, TWO32. rewrite be32_dec by lia.
+    rewrite Z.mod_small by lia. rewrite Z.eqb_refl. reflexivity.
+Qed.
+
+Lemma audio_flags_range c : 160 <= audio_flags c < 176.
+Proof.
+  unfold audio_flags, sound_rate.
+  repeat match goal with |- context [if ?b then _ else _] => destruct b end; lia.
+Qed.
+
+Lemma parse_audio_data c pk body :
+  parse_audio ([audio_flags c; pk] ++ body) = Some (audio_flags c mod 16, pk, body).
+Proof.
+  unfold parse_audio. cbn [app]. rewrite rd1_cons, rd1_cons.
+  pose proof (audio_flags_range c). replace (audio_flags c / 16 =? 10) with true by lia. reflexivity.
+Qed.
+
+Lemma parse_avcc_shape p cc l sps pps :
+  zlen sps < 65536 -> zlen pps < 65536 ->
+  parse_avcc ([1; p; cc; l] ++ [255; 225] ++ c08_be16 (zlen sps mod 65536) ++ sps ++
+              [1] ++ c08_be16 (zlen pps mod 65536) ++ pps) = Some ([p; cc; l], sps, pps).
+Proof.
+  intros Hs Hp. pose proof (zlen_nonneg sps). pose proof (zlen_nonneg pps).
+  unfold parse_avcc.
+  rewrite (c08_rdn_app' 4 [1; p; cc; l]) by reflexivity. cbn [app]. rewrite rd1_cons, rd1_cons.
+  rewrite c08_rd_app by apply be16_len. rewrite be16_dec by lia. rewrite Z.mod_small by lia.
+  rewrite c08_rdn_app. rewrite rd1_cons.
+  rewrite c08_rd_app by apply be16_len. rewrite be16_dec by lia. rewrite Z.mod_small by lia.
+  rewrite <- (app_nil_r pps) at 2. rewrite c08_rdn_app. reflexivity.
+Qed.
+
+Lemma parse_avcc_ok sps pps r :
+  avcc sps pps = Some r -> zlen sps < 65536 -> zlen pps < 65536 ->
+  parse_avcc r = Some (firstn 3 (skipn 1 sps), sps, pps).
+Proof.
+  intros A Hs Hp. unfold avcc in A.
+  destruct sps as [|s0 [|p [|cc [|l sps']]]]; try discriminate.
+  inversion A as [A']. clear A A'.
+  exact (parse_avcc_shape p cc l (s0 :: p :: cc :: l :: sps') pps Hs Hp).
+Qed.
+
+Lemma parse_hvcc_array_ok ty d r :
+  (ty = 32 \/ ty = 33 \/ ty = 34) -> zlen d < 65536 ->
+  parse_hvcc_array ty (hvcc_array ty d ++ r) = Some (d, r).
+Proof.
+  intros Ht Hd. pose proof (zlen_nonneg d). unfold hvcc_array, parse_hvcc_array. rewrite <- !app_assoc.
+  cbn [app]. rewrite rd1_cons.
+  change (0 :: 1 :: c08_be16 (zlen d mod 65536) ++ d ++ r) with ([0; 1] ++ c08_be16 (zlen d mod 65536) ++ d ++ r).
+  rewrite c08_rd_app by reflexivity. change (be_decode [0; 1]) with 1.
+  rewrite c08_rd_app by apply be16_len. rewrite be16_dec by lia. rewrite (Z.mod_small (zlen d)) by lia.
+  replace (ty mod 64) with ty by lia. rewrite Z.eqb_refl. change (1 =? 1) with true. cbn [andb].
+  apply c08_rdn_app.
+Qed.
+
+Local Opaque hvcc_array.
+Lemma parse_hvcc_ok o vps sps pps r :
+  hvcc o vps sps pps = Some r -> hvcc_fixed_ok o = true ->
+  zlen vps < 65536 -> zlen sps < 65536 -> zlen pps < 65536 ->
+  parse_hvcc r = Some (o, vps, sps, pps).
+Proof.
+  intros A F Hv Hs Hp. unfold hvcc in A. destruct (Nat.eqb_spec (length o) 21) as [L|L]; [|discriminate].
+  inversion A as [A']. clear A A'. unfold parse_hvcc.
+  change ([1] ++ o ++ [3] ++ hvcc_array 32 vps ++ hvcc_array 33 sps ++ hvcc_array 34 pps)
+    with (1 :: o ++ 3 :: hvcc_array 32 vps ++ hvcc_array 33 sps ++ hvcc_array 34 pps).
+  rewrite rd1_cons.
+  rewrite c08_rdn_app' by (unfold zlen; lia).
+  rewrite rd1_cons.
+  rewrite parse_hvcc_array_ok by (auto || assumption).
+  rewrite parse_hvcc_array_ok by (auto || assumption).
+  rewrite <- (app_nil_r (hvcc_array 34 pps)). rewrite parse_hvcc_array_ok by (auto || assumption).
+  rewrite F. reflexivity.
+Qed.
+Local Transparent hvcc_array.
+
+(* ---------------------------------------------------------------- the muxer's tags *)
+(* the one tag of a frame that produces a tag *)
+Definition media_tag (c : cfg) (f : frame) : tag :=
+  if f_kind f =? 0 then
+    mkTag 9 (u32 (ms_of (f_dts f)))
+      (video_data (if is_key (c_hevc c) (nth_byte (f_data f) 0) then 1 else 2) (video_codec_id c) 1
+                  (u32 (ms_of (f_pts f) - ms_of (f_dts f))) (f_data f))
+  else mkTag 8 (u32 (ms_of (f_pts f))) ([audio_flags c; 1] ++ f_data f).
+
+Lemma mux_frames_live c fs : mux_frames c fs = map (media_tag c) (live_frames c fs).
+Proof.
+  induction fs as [|f fs IH]; [reflexivity|].
+  cbn [mux_frames live_frames]. unfold packetize, kills, emits.
+  destruct (f_kind f =? 0) eqn:K0.
+  - destruct (f_data f) as [|b d] eqn:D; [reflexivity|].
+    cbn [andb orb map app]. rewrite <- IH. f_equal. unfold media_tag. rewrite K0, D. reflexivity.
+  - cbn [andb orb]. destruct (f_kind f =? 1) eqn:K1; cbn [andb].
+    + destruct (c_aac c); cbn [map app]; [|assumption].
+      rewrite <- IH. f_equal. unfold media_tag. rewrite K0. reflexivity.
+    + assumption.
+Qed.
+
+Lemma live_frames_in c fs f : In f (live_frames c fs) -> In f fs /\ emits c f = true.
+Proof.
+  induction fs as [|g fs IH]; cbn [live_frames]; [intros []|].
+  destruct (kills g); [intros []|]. destruct (emits c g) eqn:E.
+  - intros [<-|H]; [split; [now left|assumption]|]. destruct (IH H). split; [now right|assumption].
+  - intros H. destruct (IH H). split; [now right|assumption].
+Qed.
+
+Lemma media_tag_not_config c f : is_config (media_tag c f) = false.
+Proof.
+  unfold is_config, media_tag. destruct (f_kind f =? 0).
+  - unfold is_metadata, is_vseq, is_aseq. cbn [t_type t_data]. change (9 =? 18) with false.
+    change (9 =? 8) with false. cbn [andb orb]. unfold video_data, nth_byte. cbn [app nth].
+    change (1 =? 0) with false. now rewrite !andb_false_r.
+  - unfold is_metadata, is_vseq, is_aseq. cbn [t_type t_data]. change (8 =? 18) with false.
+    change (8 =? 9) with false. cbn [andb orb]. unfold nth_byte. cbn [app nth].
+    change (1 =? 0) with false. now rewrite !andb_false_r.
+Qed.
+
+Lemma zlen_cons {A} (a : A) l : Z.of_nat (length (a :: l)) = 1 + Z.of_nat (length l).
+Proof. cbn [length]. lia. Qed.
+
+Lemma media_tag_wf c f : frame_wf c f = true -> tag_wf (media_tag c f) = true.
+Proof.
+  unfold frame_wf, tag_wf, media_tag, TWO24. intros W.
+  apply andb_true_iff in W as [W _]. apply andb_true_iff in W as [W _]. apply andb_true_iff in W as [_ W].
+  pose proof (zlen_nonneg (f_data f)).
+  destruct (f_kind f =? 0); cbn [t_type t_data].
+  - change (9 =? 8) with false. change (9 =? 9) with true. cbn [orb andb].
+    unfold video_data. change (1 =? 1) with true. cbv iota. unfold zlen in *.
+    rewrite !app_length, be24_len, be32_len. cbn [length]. lia.
+  - change (8 =? 8) with true. cbn [orb andb]. unfold zlen in *. rewrite app_length. cbn [length]. lia.
+Qed.
+
+Lemma media_tag_ts c f : frame_wf c f = true -> emits c f = true -> t_ts (media_tag c f) = u32 (frame_ms f).
+Proof.
+  unfold frame_wf, media_tag, frame_ms, emits. intros W E. apply andb_true_iff in W as [_ W].
+  destruct (f_kind f =? 0) eqn:K0; [reflexivity|]. cbn [t_ts orb] in *.
+  destruct (f_kind f =? 1) eqn:K1; [|discriminate].
+  apply Z.eqb_eq in W. now rewrite W.
+Qed.
+
+Lemma si24_cts d : -8388608 <= d < 8388608 -> si24 (u32 d mod TWO24) = d.
+Proof. unfold si24, u32, TWO24, TWO32. intros. destruct (Z.leb_spec 8388608 ((d mod 4294967296) mod 16777216)); lia. Qed.
+
+Lemma media_tag_ok c f ts :
+  frame_wf c f = true -> emits c f = true ->
+  media_ok c f (mkP (t_type (media_tag c f)) ts (t_data (media_tag c f))) = true.
+Proof.
+  unfold frame_wf, emits, media_ok, media_tag, kills, TWO24. intros W E.
+  apply andb_true_iff in W as [W _]. apply andb_true_iff in W as [W Wk]. apply andb_true_iff in W as [_ W].
+  pose proof (zlen_nonneg (f_data f)).
+  destruct (f_kind f =? 0) eqn:K0; cbn [p_type p_data t_type t_data].
+  - change (9 =? 9) with true. cbn [andb].
+    rewrite parse_video_data.
+    + cbn [v_codec v_pkt v_body v_frametype v_cts]. rewrite !Z.eqb_refl, bytes_eqb_refl. cbn [andb].
+      destruct (is_key (c_hevc c) (nth_byte (f_data f) 0)); rewrite ?Z.eqb_refl; cbn [andb];
+      match goal with |- (if ?b then _ else _) = true => destruct b eqn:R end; try reflexivity;
+      rewrite si24_cts by lia; apply Z.eqb_refl.
+    + destruct (is_key (c_hevc c) (nth_byte (f_data f) 0)); auto.
+    + apply video_codec_id_cases.
+    + auto.
+    + unfold TWO32. lia.
+  - change (8 =? 8) with true. cbn [andb]. rewrite parse_audio_data.
+    rewrite !Z.eqb_refl, bytes_eqb_refl. reflexivity.
+Qed.
+
+(* ---------------------------------------------------------------- time rebasing *)
+Lemma s32_step a b : - TWO31 <= a - b < TWO31 -> s32 (u32 a - u32 b) = a - b.
+Proof.
+  unfold s32, u32, TWO31, TWO32. intros H.
+  destruct (Z.leb_spec 2147483648 ((a mod 4294967296 - b mod 4294967296) mod 4294967296)); lia.
+Qed.
+
+Lemma clamp_spec x : (if 0 <? x then u32 x else 0) = u32 (Z.max 0 x).
+Proof. destruct (Z.ltb_spec 0 x); [now rewrite Z.max_r by lia|now rewrite Z.max_l by lia]. Qed.
+
+Lemma rebase_media c f prev e :
+  frame_wf c f = true -> emits c f = true -> - TWO31 <= frame_ms f - prev < TWO31 ->
+  rebase (mkW true (u32 prev) e) (media_tag c f) =
+  (mkW true (u32 (frame_ms f)) (e + (frame_ms f - prev)), u32 (Z.max 0 (e + (frame_ms f - prev)))).
+Proof.
+  intros W E S. unfold rebase. rewrite media_tag_not_config. cbn [w_started w_last w_elapsed].
+  rewrite media_tag_ts by assumption. rewrite s32_step by assumption. now rewrite clamp_spec.
+Qed.
+
+Lemma rebase_media_first c f :
+  frame_wf c f = true -> emits c f = true ->
+  rebase w_init (media_tag c f) = (mkW true (u32 (frame_ms f)) 0, 0).
+Proof.
+  intros W E. unfold rebase, w_init. rewrite media_tag_not_config. cbn [w_started w_last w_elapsed].
+  rewrite media_tag_ts by assumption. rewrite Z.sub_diag. reflexivity.
+Qed.
+
+Lemma media_run_ok c t1 : forall l prev e,
+  (forall f, In f l -> frame_wf c f = true /\ emits c f = true) ->
+  steps_ok prev l = true -> e = prev - t1 ->
+  media_all_ok c t1 l (written (mkW true (u32 prev) e) (map (media_tag c) l)) = true.
+Proof.
+  induction l as [|f l IH]; intros prev e Hall S He; [reflexivity|].
+  destruct (Hall f (or_introl eq_refl)) as [W E].
+  cbn [steps_ok] in S. apply andb_true_iff in S as [S0 S]. apply andb_true_iff in S0 as [Sa Sb].
+  cbn [map written]. rewrite rebase_media by (assumption || lia).
+  cbn [media_all_ok]. rewrite media_tag_ok by assumption. cbn [andb].
+  unfold ts_ok, spec_ts. cbn [p_ts]. replace (e + (frame_ms f - prev)) with (frame_ms f - t1) by lia.
+  rewrite Z.eqb_refl. cbn [andb].
+  apply IH; [intros g Hg; apply Hall; now right|assumption|reflexivity].
+Qed.
+
+Lemma media_run_init c l :
+  (forall f, In f l -> frame_wf c f = true /\ emits c f = true) ->
+  steps_ok (first_ms l) l = true ->
+  media_all_ok c (first_ms l) l (written w_init (map (media_tag c) l)) = true.
+Proof.
+  destruct l as [|f l]; intros Hall S; [reflexivity|].
+  destruct (Hall f (or_introl eq_refl)) as [W E].
+  cbn [first_ms] in *. cbn [steps_ok] in S. apply andb_true_iff in S as [_ S].
+  cbn [map written]. rewrite rebase_media_first by assumption.
+  cbn [media_all_ok]. rewrite media_tag_ok by assumption. cbn [andb].
+  unfold ts_ok, spec_ts. cbn [p_ts]. rewrite Z.sub_diag. change (0 =? u32 (Z.max 0 0)) with true. cbn [andb].
+  apply media_run_ok; [intros g Hg; apply Hall; now right|assumption|lia].
+Qed.
+
+(* ---------------------------------------------------------------- configuration tags *)
+Definition venc_len (v : amfv) : Z :=
+  match v with
+  | ANum _ => 9
+  | ABool _ => 2
+  | AStr s => if 65535 <? zlen s then 5 + zlen s else 3 + zlen s
+  end.
+Fixpoint props_len (l : list amf_prop) : Z :=
+  match l with [] => 0 | (n, v) :: r => 2 + zlen n + venc_len v + props_len r end.
+
+Lemma amf_enc_len v : zlen (amf_enc v) = venc_len v.
+Proof.
+  destruct v as [b|b|s]; cbn [amf_enc venc_len]; [reflexivity|reflexivity|].
+  destruct (65535 <? zlen s); unfold zlen, amf_utf8; cbn [length]; rewrite !app_length;
+  rewrite ?be32_len, ?be16_len; lia.
+Qed.
+
+Lemma amf_enc_props_zlen l : zlen (amf_enc_props l) = props_len l.
+Proof.
+  induction l as [|[n v] l IH]; [reflexivity|]. cbn [amf_enc_props props_len].
+  rewrite !zlen_app, IH, amf_enc_len. unfold amf_utf8. rewrite zlen_app. unfold zlen at 1. rewrite be16_len. lia.
+Qed.
+
+Lemma script_enc_zlen name props : zlen (script_enc name props) = 11 + zlen name + props_len props.
+Proof.
+  unfold script_enc, amf_enc_ecma, amf_utf8. unfold zlen. cbn [length app].
+  rewrite !app_length. cbn [length]. rewrite !app_length. rewrite ?be32_len, ?be16_len. cbn [length].
+  pose proof (amf_enc_props_zlen props) as P. unfold zlen in P. lia.
+Qed.
+
+Lemma zl_onMetaData : zlen s_onMetaData = 10. Proof. reflexivity. Qed.
+Lemma zl_creator : zlen s_creator = 7. Proof. reflexivity. Qed.
+Lemma zl_creator_val : zlen s_creator_val = 26. Proof. reflexivity. Qed.
+Lemma zl_creationdate : zlen s_creationdate = 12. Proof. reflexivity. Qed.
+Lemma zl_audiocodecid : zlen s_audiocodecid = 12. Proof. reflexivity. Qed.
+Lemma zl_audiodatarate : zlen s_audiodatarate = 13. Proof. reflexivity. Qed.
+Lemma zl_audiosamplerate : zlen s_audiosamplerate = 15. Proof. reflexivity. Qed.
+Lemma zl_audiosamplesize : zlen s_audiosamplesize = 15. Proof. reflexivity. Qed.
+Lemma zl_stereo : zlen s_stereo = 6. Proof. reflexivity. Qed.
+Lemma zl_videocodecid : zlen s_videocodecid = 12. Proof. reflexivity. Qed.
+Lemma zl_videodatarate : zlen s_videodatarate = 13. Proof. reflexivity. Qed.
+Lemma zl_framerate : zlen s_framerate = 9. Proof. reflexivity. Qed.
+Lemma zl_width : zlen s_width = 5. Proof. reflexivity. Qed.
+Lemma zl_height : zlen s_height = 6. Proof. reflexivity. Qed.
+#[local] Hint Rewrite zl_onMetaData zl_creator zl_creator_val zl_creationdate zl_audiocodecid zl_audiodatarate
+  zl_audiosamplerate zl_audiosamplesize zl_stereo zl_videocodecid zl_videodatarate zl_framerate zl_width
+  zl_height : c08names.
+
+Local Opaque f64_of_Z.
+
+Lemma num_wf n : int_wf n = true -> amfv_wf (ANum (f64_of_Z n)) = true.
+Proof. unfold int_wf. intros H. cbn [amfv_wf]. pose proof (f64_of_Z_range n). lia. Qed.
+
+Lemma int_wf_codec c : int_wf (video_codec_id c) = true.
+Proof. unfold video_codec_id. destruct (c_hevc c); reflexivity. Qed.
+
+Ltac split_wf H :=
+  unfold cfg_wf in H;
+  repeat match type of H with (_ && _) = true => let H' := fresh "W" in apply andb_true_iff in H as [H H'] end.
+
+Lemma meta_props_wf c : cfg_wf c = true -> forallb amf_prop_wf (meta_props c) = true.
+Proof.
+  intros H. split_wf H. unfold bits_wf in *.
+  pose proof (num_wf _ (int_wf_codec c)). pose proof (num_wf 10 eq_refl).
+  repeat match goal with HH : int_wf ?n = true |- _ => apply num_wf in HH end.
+  pose proof (zlen_nonneg (c_date c)).
+  unfold meta_props. destruct (c_aac c); cbn [app forallb]; unfold amf_prop_wf; cbn [fst snd];
+  autorewrite with c08names;
+  repeat match goal with HH : amfv_wf _ = true |- _ => rewrite HH; clear HH end;
+  cbn [amfv_wf]; autorewrite with c08names; lia.
+Qed.
+
+Lemma meta_props_len c : cfg_wf c = true -> props_len (meta_props c) < 600 + zlen (c_date c).
+Proof.
+  intros H. pose proof (zlen_nonneg (c_date c)).
+  unfold meta_props. destruct (c_aac c); cbn [app props_len venc_len]; autorewrite with c08names;
+  change (65535 <? 26) with false; cbv iota;
+  destruct (65535 <? zlen (c_date c)); lia.
+Qed.
+
+
+Lemma amf_prop_eqb_refl p : amf_prop_eqb p p = true.
+Proof.
+  destruct p as [n v]. unfold amf_prop_eqb. cbn [fst snd]. rewrite bytes_eqb_refl.
+  destruct v as [b|b|s]; cbn [amfv_eqb andb]; [apply Z.eqb_refl|destruct b; reflexivity|apply bytes_eqb_refl].
+Qed.
+
+Lemma meta_props_ok c : props_ok (meta_props c) (meta_props c) = true.
+Proof.
+  unfold meta_props. destruct (c_aac c); cbn [app props_ok fst snd];
+  repeat match goal with
+  | |- context [bytes_eqb ?a ?b] =>
+      first [ change (bytes_eqb a b) with false | change (bytes_eqb a b) with true ]
+  end; cbv iota; rewrite ?amf_prop_eqb_refl; reflexivity.
+Qed.
+
+Lemma meta_tag_ok c : cfg_wf c = true -> meta_ok c (mkP 18 0 (t_data (meta_tag c))) = true.
+Proof.
+  intros H. unfold meta_ok, meta_tag. cbn [p_type p_ts p_data t_data].
+  change (18 =? 18) with true. change (0 =? 0) with true. cbn [andb].
+  rewrite amf0_roundtrip_lemma.
+  - rewrite bytes_eqb_refl, meta_props_ok. reflexivity.
+  - reflexivity.
+  - unfold meta_props. destruct (c_aac c); cbn [app length]; lia.
+  - now apply meta_props_wf.
+Qed.
+
+Lemma meta_tag_wf c : cfg_wf c = true -> tag_wf (meta_tag c) = true.
+Proof.
+  intros H. pose proof (meta_props_len c H). split_wf H.
+  unfold tag_wf, meta_tag. cbn [t_type t_data]. change (18 =? 18) with true. rewrite orb_true_r. cbn [andb].
+  rewrite script_enc_zlen. autorewrite with c08names. unfold TWO24. lia.
+Qed.
+
+Lemma meta_tag_config c : is_config (meta_tag c) = true.
+Proof. reflexivity. Qed.
+
+Lemma vseq_tag_facts c v :
+  cfg_wf c = true -> vseq_tag c = Some v ->
+  is_config v = true /\ tag_wf v = true /\ vseq_ok c (mkP (t_type v) 0 (t_data v)) = true.
+Proof.
+  intros H V. unfold vseq_tag in V.
+  destruct (if c_hevc c then hvcc (c_hvcc c) (c_vps c) (c_sps c) (c_pps c) else avcc (c_sps c) (c_pps c))
+    as [rec|] eqn:R; [|discriminate].
+  injection V as <-. split_wf H. unfold TWO24 in *.
+  pose proof (zlen_nonneg (c_sps c)). pose proof (zlen_nonneg (c_pps c)). pose proof (zlen_nonneg (c_vps c)).
+  assert (RL : zlen rec < 200000).
+  { destruct (c_hevc c).
+    - unfold hvcc in R. destruct (Nat.eqb_spec (length (c_hvcc c)) 21); [|discriminate]. injection R as <-.
+      unfold hvcc_array, zlen in *. cbn [app length]. repeat (rewrite ?app_length, ?be16_len; cbn [length]). lia.
+    - unfold avcc in R. destruct (c_sps c) as [|? [|? [|? [|? sps']]]] eqn:SP; try discriminate. injection R as <-.
+      unfold zlen in *. cbn [length] in *. cbn [app length]. repeat (rewrite ?app_length, ?be16_len; cbn [length]). lia. }
+  pose proof (zlen_nonneg rec).
+  assert (DL : zlen (video_data 1 (video_codec_id c) 0 0 rec) = 5 + zlen rec).
+  { unfold video_data, zlen. change (0 =? 1) with false. cbv iota. cbn [app length].
+    rewrite app_length, be24_len. cbn [length]. lia. }
+  repeat split.
+  - unfold is_config, is_vseq. cbn [t_type t_data]. rewrite DL.
+    unfold video_data, nth_byte. cbn [app nth]. unfold video_codec_id.
+    replace (2 <=? 5 + zlen rec) with true by lia.
+    destruct (c_hevc c); cbn; rewrite ?orb_true_r; reflexivity.
+  - unfold tag_wf. cbn [t_type t_data]. rewrite DL. change (9 =? 9) with true. rewrite orb_true_r.
+    cbn [orb andb]. unfold TWO24. lia.
+  - unfold vseq_ok. cbn [p_type p_ts p_data t_type t_data].
+    rewrite parse_video_data by (auto || apply video_codec_id_cases || (unfold TWO32; lia)).
+    cbn [v_frametype v_codec v_pkt v_cts v_body]. rewrite !Z.eqb_refl.
+    change (si24 (0 mod TWO24)) with 0. change (0 =? 0) with true. change (9 =? 9) with true. cbn [andb].
+    destruct (c_hevc c).
+    + match goal with HH : _ && hvcc_fixed_ok _ = true |- _ => apply andb_true_iff in HH as [? F] end.
+      rewrite (parse_hvcc_ok _ _ _ _ _ R) by (assumption || lia). now rewrite !bytes_eqb_refl.
+    + rewrite (parse_avcc_ok _ _ _ R) by lia. now rewrite !bytes_eqb_refl.
+Qed.
+
+Lemma aseq_tag_facts c :
+  cfg_wf c = true ->
+  is_config (aseq_tag c) = true /\ tag_wf (aseq_tag c) = true /\
+  aseq_ok c (mkP 8 0 (t_data (aseq_tag c))) = true.
+Proof.
+  intros H. split_wf H. pose proof (audio_flags_range c). pose proof (zlen_nonneg (c_asc c)).
+  unfold aseq_tag. repeat split.
+  - unfold is_config, is_aseq. cbn [t_type t_data]. unfold nth_byte, zlen. cbn [app length nth].
+    replace (audio_flags c / 16 =? 10) with true by lia.
+    replace (2 <=? Z.of_nat (S (S (length (c_asc c))))) with true by lia.
+    cbn. rewrite ?orb_true_r. reflexivity.
+  - unfold tag_wf. cbn [t_type t_data]. unfold zlen in *. cbn [app length]. unfold TWO24 in *.
+    change (8 =? 8) with true. cbn [orb andb]. lia.
+  - unfold aseq_ok. cbn [p_type p_ts p_data t_data]. rewrite parse_audio_data.
+    now rewrite !Z.eqb_refl, bytes_eqb_refl.
+Qed.
+
+(* ---------------------------------------------------------------- assembly *)
+Lemma in_skipn {A} (x : A) k : forall l, In x (skipn k l) -> In x l.
+Proof. induction k as [|k IH]; intros [|a l] H; cbn in *; auto. Qed.
+
+Lemma filter_media_config c l : filter is_config (map (media_tag c) l) = [].
+Proof. induction l as [|f l IH]; [reflexivity|]. cbn [map filter]. now rewrite media_tag_not_config. Qed.
+Lemma filter_media_media c l :
+  filter (fun t => negb (is_config t)) (map (media_tag c) l) = map (media_tag c) l.
+Proof. induction l as [|f l IH]; [reflexivity|]. cbn [map filter]. rewrite media_tag_not_config. cbn [negb]. now rewrite IH. Qed.
+
+Definition as_config (t : tag) : ptag := mkP (t_type t) 0 (t_data t).
+
+Lemma written_configs t0 cfgs rest :
+  forallb is_config cfgs = true ->
+  written w_init (map (restamp t0) cfgs ++ rest) = map as_config cfgs ++ written w_init rest.
+Proof.
+  induction cfgs as [|t l IH]; intros H; [reflexivity|].
+  cbn [forallb] in H. apply andb_true_iff in H as [Ht Hl].
+  cbn [map app written]. unfold rebase at 1.
+  change (is_config (restamp t0 t)) with (is_config t). rewrite Ht.
+  cbn [w_elapsed w_init]. change (0 <? 0) with false. cbv iota.
+  rewrite IH by assumption. reflexivity.
+Qed.
+
+Lemma tag_wf_restamp t0 t : tag_wf (restamp t0 t) = tag_wf t.
+Proof. reflexivity. Qed.
+
+Lemma vseq_exists c : cfg_wf c = true -> exists v, vseq_tag c = Some v.
+Proof.
+  intros H. split_wf H. unfold vseq_tag. destruct (c_hevc c).
+  - match goal with HH : _ && hvcc_fixed_ok _ = true |- _ => apply andb_true_iff in HH as [L F] end.
+    unfold hvcc. rewrite L. eauto.
+  - unfold avcc. destruct (c_sps c) as [|? [|? [|? [|? ?]]]]; unfold zlen in *; cbn [length] in *; try lia; eauto.
+Qed.
+
+Lemma live_all c fs k :
+  forallb (frame_wf c) fs = true ->
+  forall f, In f (skipn k (live_frames c fs)) -> frame_wf c f = true /\ emits c f = true.
+Proof.
+  intros W f H. apply in_skipn in H. apply live_frames_in in H as [H E]. split; [|assumption].
+  rewrite forallb_forall in W. now apply W.
+Qed.
+
+Lemma forallb_media_wf c l :
+  (forall f, In f l -> frame_wf c f = true /\ emits c f = true) ->
+  forallb tag_wf (map (media_tag c) l) = true.
+Proof.
+  intros H. apply forallb_forall. intros t Ht. apply in_map_iff in Ht as [f [<- Hf]].
+  apply media_tag_wf. now apply H.
+Qed.
+
+Definition tags_ok_body (c : cfg) (fs : list frame) (k : nat) (ps : list ptag) : bool :=
+  match ps with
+  | m :: ps1 =>
+      meta_ok c m &&
+      (if vseq_dies c then match ps1 with [] => true | _ => false end
+       else
+         match ps1 with
+         | v :: ps2 =>
+             vseq_ok c v &&
+             (if c_aac c then
+                match ps2 with
+                | a :: ps3 => aseq_ok c a &&
+                              let live := skipn k (live_frames c fs) in
+                              media_all_ok c (first_ms live) live ps3 || media_all_ok c 0 live ps3
+                | [] => false
+                end
+              else
+                let live := skipn k (live_frames c fs) in
+                media_all_ok c (first_ms live) live ps2 || media_all_ok c 0 live ps2)
+         | [] => false
+         end)
+  | [] => false
+  end.
+
+Lemma tags_ok_nonempty c fs k ps : fs <> [] -> tags_ok c fs k ps = tags_ok_body c fs k ps.
+Proof. destruct fs; [congruence|reflexivity]. Qed.
+
+Lemma mux_nonempty c fs v :
+  fs <> [] -> vseq_tag c = Some v -> mux c fs = mux_config c ++ map (media_tag c) (live_frames c fs).
+Proof. intros NE V. destruct fs; [congruence|]. unfold mux. rewrite V. now rewrite mux_frames_live. Qed.
+
+Lemma mux_config_filters c v :
+  cfg_wf c = true -> vseq_tag c = Some v ->
+  filter is_config (mux_config c) = mux_config c /\
+  filter (fun t => negb (is_config t)) (mux_config c) = [].
+Proof.
+  intros C V. destruct (vseq_tag_facts c v C V) as [Vc _]. destruct (aseq_tag_facts c C) as [Ac _].
+  unfold mux_config. rewrite V. destruct (c_aac c); cbn [filter]; rewrite meta_tag_config, Vc, ?Ac; auto.
+Qed.
+
+Theorem model_passes_lemma c fs k t0 :
+  case_wf c fs k = true -> flv_ok c fs k (flv_bytes c fs k t0) = true.
+Proof.
+  unfold case_wf. intros H. apply andb_true_iff in H as [H S]. apply andb_true_iff in H as [C F].
+  unfold flv_bytes, flv_ok.
+  assert (FL : type_flags c = 4 \/ type_flags c = 5) by (unfold type_flags; destruct (c_aac c); auto).
+  assert (E : fs = [] \/ fs <> []) by (destruct fs; [now left|right; congruence]).
+  destruct E as [->|NE].
+  - unfold mux, join_tags. cbn [filter map skipn app]. rewrite skipn_nil.
+    rewrite parse_flv_write by (assumption || reflexivity). rewrite Z.eqb_refl. reflexivity.
+  - destruct (vseq_exists c C) as [v V].
+    destruct (vseq_tag_facts c v C V) as [Vc [Vw Vo]].
+    destruct (aseq_tag_facts c C) as [Ac [Aw Ao]].
+    set (live := skipn k (live_frames c fs)) in *.
+    pose proof (live_all c fs k F) as LA. fold live in LA.
+    assert (MW := forallb_media_wf c live LA).
+    assert (MO := media_run_init c live LA S).
+    unfold join_tags. rewrite (mux_nonempty c fs v NE V).
+    destruct (mux_config_filters c v C V) as [MF1 MF2].
+    rewrite !filter_app, filter_media_config, filter_media_media, app_nil_r, MF1, MF2. cbn [app].
+    rewrite skipn_map. fold live.
+    unfold mux_config. rewrite V.
+    assert (VD : vseq_dies c = false) by (unfold vseq_dies; now rewrite V).
+    destruct (c_aac c) eqn:AAC.
+    + rewrite parse_flv_write.
+      * rewrite Z.eqb_refl. cbn [andb].
+        rewrite tags_ok_nonempty by assumption. unfold tags_ok_body. fold live. rewrite VD, AAC.
+        rewrite written_configs by (cbn [forallb]; now rewrite meta_tag_config, Vc, Ac).
+        cbn [map app].
+        unfold as_config at 1. change (t_type (meta_tag c)) with 18.
+        rewrite meta_tag_ok by assumption. cbn [andb].
+        unfold as_config at 1. rewrite Vo. cbn [andb].
+        unfold as_config. change (t_type (aseq_tag c)) with 8. rewrite Ao. cbn [andb].
+        rewrite MO. reflexivity.
+      * assumption.
+      * rewrite forallb_app. cbn [map forallb]. rewrite !tag_wf_restamp, meta_tag_wf, Vw, Aw, MW by assumption.
+        reflexivity.
+    + rewrite parse_flv_write.
+      * rewrite Z.eqb_refl. cbn [andb].
+        rewrite tags_ok_nonempty by assumption. unfold tags_ok_body. fold live. rewrite VD, AAC.
+        rewrite written_configs by (cbn [forallb]; now rewrite meta_tag_config, Vc).
+        cbn [map app].
+        unfold as_config at 1. change (t_type (meta_tag c)) with 18.
+        rewrite meta_tag_ok by assumption. cbn [andb].
+        unfold as_config. rewrite Vo. cbn [andb].
+        rewrite MO. reflexivity.
+      * assumption.
+      * rewrite forallb_app. cbn [map forallb]. rewrite !tag_wf_restamp, meta_tag_wf, Vw, MW by assumption.
+        reflexivity.
+Qed.
+
+(* ---------------------------------------------------------------- named statements *)
+(* what a successful parse means: the body is a sequence of tags, each an 11-byte header whose
+   DataSize is the payload length, the payload, and a PreviousTagSize equal to 11 + payload *)
+Lemma c08_rd_split n s v r : c08_rd n s = Some (v, r) ->
+  s = firstn n s ++ r /\ length (firstn n s) = n /\ v = be_decode (firstn n s).
+Proof.
+  unfold c08_rd. destruct (Nat.ltb_spec (length s) n) as [L|L]; [discriminate|].
+  intros E. injection E as <- <-. rewrite firstn_skipn. rewrite firstn_length. repeat split; lia.
+Qed.
+
+Lemma c08_rdn_split n s x r : c08_rdn n s = Some (x, r) -> s = x ++ r /\ zlen x = n.
+Proof.
+  unfold c08_rdn, take, drop, zlen.
+  destruct (Z.ltb_spec n 0) as [L|L]; [discriminate|].
+  destruct (Z.ltb_spec (Z.of_nat (length s)) n) as [M|M]; [discriminate|]. cbn [orb].
+  intros E. injection E as <- <-. rewrite firstn_skipn, firstn_length. split; [reflexivity|lia].
+Qed.
+
+Theorem parse_tags_meaning_lemma fuel s p ps :
+  parse_tags fuel s = Some (p :: ps) ->
+  exists hdr sz rest,
+    s = hdr ++ p_data p ++ sz ++ rest /\ length hdr = 11%nat /\ length sz = 4%nat /\
+    nth 0 hdr 0 = p_type p /\
+    be_decode (firstn 3 (skipn 1 hdr)) = zlen (p_data p) /\
+    be_decode sz = 11 + zlen (p_data p) /\
+    be_decode (firstn 3 (skipn 8 hdr)) = 0 /\
+    parse_tags (pred fuel) rest = Some ps.
+Proof.
+  destruct s as [|ty r0]; [destruct fuel; discriminate|]. destruct fuel as [|f]; [discriminate|].
+  cbn [parse_tags pred].
+  destruct (c08_rd 3 r0) as [[ds r1]|] eqn:E1; [|discriminate].
+  destruct (c08_rd 3 r1) as [[tlo r2]|] eqn:E2; [|discriminate].
+  destruct (c08_rd 1 r2) as [[thi r3]|] eqn:E3; [|discriminate].
+  destruct (c08_rd 3 r3) as [[sid r4]|] eqn:E4; [|discriminate].
+  destruct (c08_rdn ds r4) as [[data r5]|] eqn:E5; [|discriminate].
+  destruct (c08_rd 4 r5) as [[prev r6]|] eqn:E6; [|discriminate].
+  destruct ((sid =? 0) && (prev =? 11 + ds) && ((ty =? 8) || (ty =? 9) || (ty =? 18))) eqn:C; [|discriminate].
+  destruct (parse_tags f r6) as [l|] eqn:E7; [|discriminate].
+  intros E. injection E as <- <-. cbn [p_data p_type].
+  apply andb_true_iff in C as [C _]. apply andb_true_iff in C as [C1 C2].
+  apply c08_rd_split in E1 as (S1 & L1 & V1). apply c08_rd_split in E2 as (S2 & L2 & V2).
+  apply c08_rd_split in E3 as (S3 & L3 & V3). apply c08_rd_split in E4 as (S4 & L4 & V4).
+  apply c08_rdn_split in E5 as (S5 & L5). apply c08_rd_split in E6 as (S6 & L6 & V6).
+  exists (ty :: firstn 3 r0 ++ firstn 3 r1 ++ firstn 1 r2 ++ firstn 3 r3), (firstn 4 r5), r6.
+  repeat split.
+  - rewrite S1 at 1. rewrite S2 at 1. rewrite S3 at 1. rewrite S4 at 1. rewrite S5 at 1. rewrite S6 at 1.
+    cbn [app]. now rewrite <- !app_assoc.
+  - cbn [length]. rewrite !app_length. lia.
+  - assumption.
+  - cbn [skipn]. rewrite firstn_app, L1, Nat.sub_diag. rewrite (firstn_all2 (firstn 3 r0)) by lia.
+    rewrite firstn_O, app_nil_r. lia.
+  - lia.
+  - rewrite (skipn_cons 7).
+    replace (skipn 7 (firstn 3 r0 ++ firstn 3 r1 ++ firstn 1 r2 ++ firstn 3 r3)) with (firstn 3 r3).
+    + rewrite (firstn_all2 (firstn 3 r3)) by lia. lia.
+    + rewrite skipn_app, L1. rewrite (skipn_all2 (firstn 3 r0)) by lia. cbn [app]. change (7 - 3)%nat with 4%nat.
+      rewrite skipn_app, L2. rewrite (skipn_all2 (firstn 3 r1)) by lia. cbn [app]. change (4 - 3)%nat with 1%nat.
+      rewrite skipn_app, L3. rewrite (skipn_all2 (firstn 1 r2)) by lia. cbn [app]. change (1 - 1)%nat with 0%nat.
+      reflexivity.
+  - assumption.
+Qed.
+
+(* the rebased timestamps of the media tags a client receives *)
+Lemma written_media_ts c t1 : forall l prev e,
+  (forall f, In f l -> frame_wf c f = true /\ emits c f = true) ->
+  steps_ok prev l = true -> e = prev - t1 ->
+  map p_ts (written (mkW true (u32 prev) e) (map (media_tag c) l)) =
+  map (fun f => spec_ts t1 (frame_ms f)) l.
+Proof.
+  induction l as [|f l IH]; intros prev e Hall S He; [reflexivity|].
+  destruct (Hall f (or_introl eq_refl)) as [W E].
+  cbn [steps_ok] in S. apply andb_true_iff in S as [S0 S]. apply andb_true_iff in S0 as [Sa Sb].
+  cbn [map written]. rewrite rebase_media by (assumption || lia). cbn [map p_ts].
+  unfold spec_ts at 1. replace (e + (frame_ms f - prev)) with (frame_ms f - t1) by lia. f_equal.
+  apply IH; [intros g Hg; apply Hall; now right|assumption|lia].
+Qed.
+
+Theorem flv_time_rebased_lemma c l :
+  (forall f, In f l -> frame_wf c f = true /\ emits c f = true) ->
+  steps_ok (first_ms l) l = true ->
+  map p_ts (written w_init (map (media_tag c) l)) =
+  map (fun f => u32 (Z.max 0 (frame_ms f - first_ms l))) l.
+Proof.
+  destruct l as [|f l]; intros Hall S; [reflexivity|].
+  destruct (Hall f (or_introl eq_refl)) as [W E].
+  cbn [first_ms] in *. cbn [steps_ok] in S. apply andb_true_iff in S as [_ S].
+  cbn [map written]. rewrite rebase_media_first by assumption. cbn [map p_ts].
+  rewrite Z.sub_diag. change (u32 (Z.max 0 0)) with 0. f_equal.
+  apply (written_media_ts c (frame_ms f)); [intros g Hg; apply Hall; now right|assumption|lia].
+Qed.
+
+(* consequences in the property's words *)
+Lemma spec_ts_older t1 t : t <= t1 -> spec_ts t1 t = 0.
+Proof. intros. unfold spec_ts. rewrite Z.max_l by lia. reflexivity. Qed.
+Lemma spec_ts_later t1 t : 0 <= t - t1 < TWO32 -> spec_ts t1 t = t - t1.
+Proof. unfold spec_ts, u32, TWO32. intros. rewrite Z.max_r by lia. apply Z.mod_small. lia. Qed.
+
+(* key-frame flag <-> NAL type *)
+Lemma is_key_h264 b : is_key false b = true <-> b mod 32 = 5.
+Proof. unfold is_key, h264_nal_type. lia. Qed.
+Lemma is_key_h265 b : is_key true b = true <-> 16 <= (b / 2) mod 64 <= 21.
+Proof. unfold is_key, h265_nal_type. lia. Qed.
+
+Theorem flv_video_faithful_lemma c f :
+  frame_wf c f = true -> f_kind f = 0 ->
+  let d := ms_of (f_pts f) - ms_of (f_dts f) in
+  t_type (media_tag c f) = 9 /\
+  parse_video (t_data (media_tag c f)) =
+    Some (mkPV (if is_key (c_hevc c) (nth_byte (f_data f) 0) then 1 else 2) (video_codec_id c) 1
+               (si24 (u32 d mod TWO24)) (f_data f)) /\
+  (-8388608 <= d < 8388608 -> si24 (u32 d mod TWO24) = d).
+Proof.
+  intros W K d. unfold media_tag. rewrite K. change (0 =? 0) with true. cbv iota. cbn [t_type t_data].
+  split; [reflexivity|]. split; [|apply si24_cts].
+  unfold frame_wf, TWO24 in W. apply andb_true_iff in W as [W _]. apply andb_true_iff in W as [W _].
+  apply andb_true_iff in W as [_ W]. pose proof (zlen_nonneg (f_data f)).
+  apply parse_video_data; [destruct (is_key _ _); auto|apply video_codec_id_cases|auto|unfold TWO32; lia].
+Qed.
+
+Theorem flv_audio_faithful_lemma c f :
+  f_kind f <> 0 ->
+  t_type (media_tag c f) = 8 /\
+  parse_audio (t_data (media_tag c f)) = Some (audio_flags c mod 16, 1, f_data f).
+Proof.
+  intros K. unfold media_tag. destruct (Z.eqb_spec (f_kind f) 0); [contradiction|]. cbn [t_type t_data].
+  split; [reflexivity|apply parse_audio_data].
+Qed.
+
+Lemma media_all_ok_len c t1 : forall l ps, media_all_ok c t1 l ps = true -> length ps = length l.
+Proof.
+  induction l as [|f l IH]; intros [|p ps] H; cbn [media_all_ok] in H; try discriminate; [reflexivity|].
+  apply andb_true_iff in H as [_ H]. cbn [length]. f_equal. now apply IH.
+Qed.
+
+(* metadata, then the video configuration built from the stream's parameter sets, then the AAC
+   configuration, then exactly one tag per media frame *)
+Theorem flv_header_order_lemma c fs k t0 :
+  case_wf c fs k = true -> fs <> [] ->
+  exists m v rest,
+    parse_flv (flv_bytes c fs k t0) = Some (type_flags c, m :: v :: rest) /\
+    meta_ok c m = true /\ vseq_ok c v = true /\
+    (if c_aac c
+     then exists a ps, rest = a :: ps /\ aseq_ok c a = true /\
+                       length ps = length (skipn k (live_frames c fs))
+     else length rest = length (skipn k (live_frames c fs))).
+Proof.
+  intros H NE. pose proof (model_passes_lemma c fs k t0 H) as OK.
+  unfold case_wf in H. apply andb_true_iff in H as [H _]. apply andb_true_iff in H as [C _].
+  destruct (vseq_exists c C) as [v0 V].
+  assert (VD : vseq_dies c = false) by (unfold vseq_dies; now rewrite V).
+  unfold flv_ok in OK. destruct (parse_flv (flv_bytes c fs k t0)) as [[fl ps]|]; [|discriminate].
+  apply andb_true_iff in OK as [FL T]. apply Z.eqb_eq in FL. subst fl.
+  rewrite tags_ok_nonempty in T by assumption. unfold tags_ok_body in T. rewrite VD in T.
+  destruct ps as [|m [|v rest]]; try discriminate.
+  { apply andb_true_iff in T as [_ T]. discriminate. }
+  apply andb_true_iff in T as [M T]. apply andb_true_iff in T as [Vo T].
+  exists m, v, rest. repeat split; try assumption.
+  destruct (c_aac c).
+  - destruct rest as [|a ps]; [discriminate|]. apply andb_true_iff in T as [A T].
+    exists a, ps. repeat split; try assumption.
+    apply orb_true_iff in T as [T|T]; eapply media_all_ok_len; eassumption.
+  - apply orb_true_iff in T as [T|T]; eapply media_all_ok_len; eassumption.
+Qed.
